@@ -95,15 +95,20 @@ func genCode128Text(t *rapid.T) string {
 			}
 		case 10: // long tail to reach the 80-rune boundary
 			n := rapid.IntRange(60, 85).Draw(t, "long")
-			k := rapid.IntRange(0, 2).Draw(t, "lk")
+			k := rapid.IntRange(0, 4).Draw(t, "lk")
 			for i := 0; i < n; i++ {
 				switch k {
 				case 0:
 					sb = append(sb, rune('0'+i%10))
 				case 1:
 					sb = append(sb, rune('a'+i%26))
-				default:
+				case 2:
 					sb = append(sb, rune(1+i%30))
+				case 3: // strict control / lower-case alternation: a code-set switch or shift per character, the only
+					// way to more than 103 data symbols within 80 characters (position weights beyond 103)
+					sb = append(sb, []rune{rune(1 + i%30), rune('a' + i%26)}[i%2])
+				default: // period three: control, lower case, common
+					sb = append(sb, []rune{rune(1 + i%30), rune('a' + i%26), rune('A' + i%26)}[i%3])
 				}
 			}
 		default: // digit pair then single char, repeatedly (odd/even digit boundaries)
@@ -219,6 +224,9 @@ func c05Account(st *Stats, c C128Case, res *ref.Code128Result) {
 	}
 	if n := utf8.RuneCount(c.Content); n >= 79 {
 		st.Class(fmt.Sprintf("accepted length %d", n))
+	}
+	if len(res.Values) > 104 {
+		st.Class("more than 103 data symbols (position weights beyond 103)")
 	}
 }
 
